@@ -16,6 +16,13 @@ def distance_cases(chk):
                 r["w"] = 20 if r["a"] == r["b"] else 1
         cs.append({"edges": es, "jd": jd, "tops": tops, "target": tg, "limit": 800, "search": -1, "rng": ("seed", rng.randrange(1 << 30)),
                    "watchdog": 120, "wrap": False, "distance": True})
+    # two degree classes and a DISASSORTATIVE full-support target: the only useful moves turn an a-a and a b-b edge into two a-b edges
+    for i in range(12 if chk.tier == "thorough" else 4):
+        es, jd, tops = R.two_class_network(rng)
+        ka, kb = sorted({j[0] for j in jd})
+        tg = [[{"a": [x - 1], "b": [y - 1], "w": 18 if x != y else 2} for x in (ka, kb) for y in (ka, kb)]]
+        cs.append({"edges": es, "jd": jd, "tops": tops, "target": tg, "limit": 400, "search": -1, "rng": ("seed", rng.randrange(1 << 30)),
+                   "watchdog": 60, "wrap": False, "distance": True, "labels": ["id", "shift"][i % 2]})
     return cs
 
 
